@@ -88,6 +88,7 @@ pub fn child_main(args: &[String]) {
             let _ = flw::execute(&mut ctx, &lines);
         }
         Some("recurse") => robust::child_recurse(&args[1..]),
+        Some("buflog") => robust::child_buflog(&args[1..]),
         Some("concstd") => conc::child_concstd(&args[1..]),
         _ => {
             eprintln!("unknown child mode");
